@@ -19,7 +19,6 @@ const (
 	systemAreaSize                       = sectorSize * 16
 	volumeDescriptorHeaderSize           = 7
 	volumeDescriptorBodySize             = sectorSize - volumeDescriptorHeaderSize
-	pathTableItemsLimit                  = 0x10000
 	maxDirEntrySize            sizeBytes = 0xFF // length of directory record is stored in one byte
 	volumeIdentifierSize       sizeBytes = 32
 	volumeSetIdentifierSize    sizeBytes = 128
